@@ -329,7 +329,18 @@ def numerics(ctx):
             for N in degs:
                 psi, clmo = _init_index_tables(N)
                 enc = _create_encode_dict_from_clmo(clmo)
-                H = (_build_physical_hamiltonian_collinear if coll else _build_physical_hamiltonian_triangular)(L, N)
+                builder = _build_physical_hamiltonian_collinear if coll else _build_physical_hamiltonian_triangular
+                H = builder(L, N)
+                # the expansion to degree N+1 must contain the expansion to degree N unchanged (a Taylor polynomial is nested)
+                Hup = builder(L, N + 1)
+                for dgr in range(N + 1):
+                    a_, b_ = np.asarray(H[dgr]), np.asarray(Hup[dgr])
+                    if a_.shape != b_.shape or not np.allclose(a_, b_, rtol=1e-12, atol=1e-13 * (1 + np.abs(b_).max())):
+                        j = int(np.argmax(np.abs(a_ - b_))) if a_.shape == b_.shape else -1
+                        ctx.violation("expansion-not-nested:L%d" % k, "the degree-%d block of the expansion truncated at N=%d differs from the same block of the expansion at N=%d" % (dgr, N, N + 1),
+                                      {"mu": mu, "point": k, "N": N, "block": dgr, "slot": j,
+                                       "coefficient_at_N": complex(a_[j]).__repr__() if j >= 0 else None, "coefficient_at_N+1": complex(b_[j]).__repr__() if j >= 0 else None})
+                        return
                 Hn = List()
                 for h in H:
                     Hn.append(np.asarray(h, dtype=np.complex128))
@@ -366,11 +377,11 @@ def numerics(ctx):
                 ctx.extra.setdefault("exponents", {})["%.3g:L%d:N%d" % (mu, k, N)] = [None if sH is None else round(sH, 2), None if sF is None else round(sF, 2)]
                 # value: remainder must be O(r^(N+1)): small in absolute terms at the smallest radius and with the right exponent when resolvable
                 scale = max(abs(c) for c in [1.0])  # energies are O(1) in local units at r ~ dmin
-                if not (eH[-1] <= 50 * (0.02) ** (N + 1) * max(1.0, 1.0 / dmin) + 50 * floorH) or (sH is not None and sH < N + 1 - 1.2):
+                if not (eH[-1] <= 50 * (0.02) ** (N + 1) * max(1.0, 1.0 / dmin) + 50 * floorH) or (sH is not None and sH < N + 1 - 0.7):
                     ctx.violation("taylor-remainder:L%d" % k, "H_poly differs from (E o phi - E0)/gamma^2 by %r at radii %r (fitted exponent %r, expected >= %d)" % (eH, radii, sH, N + 1),
                                   {"mu": mu, "point": k, "N": N, "direction": u.tolist(), "radii": radii, "remainders": eH, "exponent": sH})
                     return
-                if not (eF[-1] <= 200 * (0.02) ** N * max(1.0, 1.0 / dmin) / gam * max(1.0, gam) + 50 * floorF) or (sF is not None and sF < N - 1.2):
+                if not (eF[-1] <= 200 * (0.02) ** N * max(1.0, 1.0 / dmin) / gam * max(1.0, gam) + 50 * floorF) or (sF is not None and sF < N - 0.7):
                     ctx.violation("field-conjugacy:L%d" % k, "Hamilton equations of H_poly mapped to the synodic frame differ from the CR3BP accelerations by %r at radii %r (fitted exponent %r, expected >= %d)" % (eF, radii, sF, N),
                                   {"mu": mu, "point": k, "N": N, "direction": u.tolist(), "radii": radii, "errors": eF, "exponent": sF})
                     return
